@@ -513,5 +513,13 @@ Proof.
   intros Hs Hi Hc Hd. destruct (node_ok f (ev_req f) WC o s v Hs Hi Hc Hd) as (s' & H1 & H2 & _). eauto.
 Qed.
 
+(* the same for either table: w = WH is Graph.get_hash *)
+Theorem ev_output_w f w o s v :
+  spnode (spq f) w o = Some v -> Inv s -> cnt s o >= 1 -> (In o R \/ aget ins o <> None) ->
+  exists s', node (ev f) w o s = ROk v s' /\ Inv s'.
+Proof.
+  intros Hs Hi Hc Hd. destruct (node_ok f (ev_req f) w o s v Hs Hi Hc Hd) as (s' & H1 & H2 & _). eauto.
+Qed.
+
 End L2.
 
